@@ -37,7 +37,7 @@ m = {
  'version': 1,
  'setup_cmd': 'python3 vf/setup.py',
  'hooks': {'guard': 'APACHE_XERCES_C_VERIF', 'enable': 'none needed: contracts are sidecar text in /verif/units spliced into bodies extracted from /repo on every run; no hook code exists in /repo',
-           'baseline_off_cmd': 'ctest --test-dir /repo/_build -j8 --timeout 900', 'source_commits': HOOK_COMMITS, 'add_only': True},
+           'baseline_off_cmd': 'cmake --build /repo/_build -j8 && ctest --test-dir /repo/_build -j8 --timeout 900', 'source_commits': HOOK_COMMITS, 'add_only': True},
  'engines': [{'name': 'cbmc-contracts', 'path': '/verif/vf', 'serves_properties': sorted(CLAIMED),
               'kind_free_text': 'x2c mechanical extraction of real function bodies to C + CBMC 6.11 code contracts (legacy two-step instrumentation), MiniSat back end'}],
  'checks': checks,
